@@ -13,13 +13,24 @@ U64 = (1 << 64) - 1
 
 # arch id -> description used by generator and oracle
 ARCH = {
-    0: dict(name="x86", bits=32, pw=4, adj=1, leaf=False, ngp=3, slot=32),
-    1: dict(name="amd64", bits=64, pw=8, adj=1, leaf=False, ngp=5, slot=64),
-    2: dict(name="arm", bits=32, pw=4, adj=2, leaf=True, ngp=7, slot=32),
-    3: dict(name="arm64", bits=64, pw=8, adj=4, leaf=True, ngp=10, slot=64),
+    0: dict(name="x86", bits=32, pw=4, adj=1, leaf=False, ngp=7, slot=32),
+    1: dict(name="amd64", bits=64, pw=8, adj=1, leaf=False, ngp=14, slot=64),
+    2: dict(name="arm", bits=32, pw=4, adj=2, leaf=True, ngp=12, slot=32),
+    3: dict(name="arm64", bits=64, pw=8, adj=4, leaf=True, ngp=29, slot=64),
     4: dict(name="mips32", bits=32, pw=4, adj=8, leaf=True, ngp=9, slot=64),
     5: dict(name="mips64", bits=64, pw=8, adj=8, leaf=True, ngp=9, slot=64),
-    6: dict(name="arm64_old", bits=64, pw=8, adj=4, leaf=True, ngp=10, slot=64),
+    6: dict(name="arm64_old", bits=64, pw=8, adj=4, leaf=True, ngp=29, slot=64),
+}
+# register names a STACK CFI rule can mention: (sp, ip-ish targets, fp names, lr names, gp names = case-line order), '$' prefix or not
+_X29 = ["x%d" % i for i in range(29)]
+REGS = {
+    0: dict(pfx="$", sp="esp", fp=["ebp"], lr=[], gp=["ebx", "esi", "edi", "eax", "ecx", "edx", "eflags"]),
+    1: dict(pfx="$", sp="rsp", fp=["rbp"], lr=[], gp=["rax", "rdx", "rcx", "rbx", "rsi", "rdi", "r8", "r9", "r10", "r11", "r12", "r13", "r14", "r15"]),
+    2: dict(pfx="", sp="sp", fp=["fp", "r11"], lr=["lr", "r14"], gp=["r%d" % i for i in range(11)] + ["r12"], spalias=["r13"], pc=["pc", "r15"]),
+    3: dict(pfx="", sp="sp", fp=["fp", "x29"], lr=["lr", "x30"], gp=_X29, pc=["pc"]),
+    6: dict(pfx="", sp="sp", fp=["fp", "x29"], lr=["lr", "x30"], gp=_X29, pc=["pc"]),
+    4: dict(pfx="", sp="sp", fp=["fp"], lr=["ra"], gp=["gp"] + ["s%d" % i for i in range(8)], pc=["pc"]),
+    5: dict(pfx="", sp="sp", fp=["fp"], lr=["ra"], gp=["gp"] + ["s%d" % i for i in range(8)], pc=["pc"]),
 }
 VALID_NAMES = {
     0: ["eip", "esp", "ebp", "ebx", "esi", "edi"],
@@ -88,9 +99,11 @@ class Gen:
                    0xFFFFFFFFFFFF0000, 0x1000, 0x0010000000000000]
         for _ in range(n):
             b = r.choice(bases32 if A["bits"] == 32 else bases64 + bases32)
-            if r.chance(1, 6) and mods:
-                b = mods[0][0] + r.choice([0, 0x100, 0x8000, 0x10000])   # overlapping / adjacent
-            size = r.choice([0x10000, 0x1000, 0x20000, 1, 0])
+            size = r.choice([0x10000, 0x1000, 0x20000, 0x10000, 1, 0])
+            if r.chance(1, 3) and mods:
+                prev = r.choice(mods)
+                # overlapping / directly behind / directly in front of another module / one byte apart
+                b = r.choice([prev[0] + prev[1], prev[0] + prev[1], prev[0] + prev[1] + 1, max(prev[0] - size, 0), prev[0] + 0x100, prev[0] + 0x8000])
             b = min(b, U64)
             mods.append([b, size, "-"])
         return mods
@@ -100,9 +113,19 @@ class Gen:
         pw = A["pw"]
         for m in mods:
             k = r.below(10)
-            if k < 4:
+            if k < 3:
                 continue
             size = max(m[1], 1)
+            if k >= 6:
+                # arbitrary rule text (evaluated by C06's model on the model side)
+                init = self.rule_text(self.arch, A, mods)
+                deltas = []
+                if r.chance(1, 4):
+                    deltas.append((r.choice([0x100, 0x101, 0x180, 0x200]), self.rule_text(self.arch, A, mods) if r.chance(1, 2)
+                                   else ".cfa: %s%s %d +" % (REGS[self.arch]["pfx"], REGS[self.arch]["sp"], r.choice([0, pw, 16]))))
+                m[2] = "Y|%d|%d|%d|%d|%s%s" % (r.choice([0, 0x100]), r.choice([size, size, 0x100, 0]), 0, r.choice([size, size, 0x10000]),
+                                              init.replace(" ", "~"), "".join("|%d=%s" % (a_, t_.replace(" ", "~")) for a_, t_ in deltas))
+                continue
             func_lo = r.choice([0, 0x100, 0x200])
             func_size = r.choice([0, 0x100, size, 0x10])
             cfi_lo = r.choice([0, 0, 0x100])
@@ -116,11 +139,101 @@ class Gen:
             fp_off = r.choice([None, None, 2 * pw, 3 * pw, -pw, 1 << 20])
             m[2] = sym(func_lo, func_size, cfi_lo, cfi_size, cfa_off, ra_kind, ra_arg, fp_off)
 
+    def rule_text(self, arch, A, mods):
+        """random STACK CFI rule text over the architecture's registers (any register may be read or set)"""
+        r = self.r
+        R = REGS[arch]
+        pw = A["pw"]
+        px = R["pfx"]
+        allregs = [R["sp"]] + R["fp"] + R["lr"] + R["gp"] + R.get("spalias", [])
+        k = lambda: r.choice([0, 0, pw, pw, 2 * pw, 3 * pw, 4 * pw, 16, -pw, 1, -2 * pw])
+
+        def reg():
+            return px + r.choice(allregs if r.chance(1, 3) else R["fp"] + R["lr"] + R["gp"][:6] + R["gp"][-3:])
+
+        def code():
+            m = r.choice(mods) if mods else [0x1000, 0x1000]
+            return str((m[0] + r.choice([0x100, 0x104, 0x180, 0x200])) & 0x7FFFFFFFFFFFFFFF)
+
+        def expr(target=None):
+            t = r.below(12)
+            if t < 3:
+                return ".cfa %d %s ^" % (abs(k()), r.choice(["-", "-", "+"]))
+            if t < 5:
+                return reg()
+            if t < 7:
+                return "%s %d +" % (reg(), r.choice([pw, 4, 1, 8, 16]))
+            if t == 7 and target:
+                return px + target
+            if t == 8:
+                return code()
+            if t == 9:
+                return ".undef"
+            if t == 10:
+                return "%s ^" % reg()
+            return ".cfa %d +" % k()
+        cfa = r.choice(["%s%s %d +" % (px, R["sp"], k()), "%s%s %d +" % (px, R["sp"], k()), "%s%s" % (px, R["sp"]),
+                        "%s%s 0 +" % (px, R["sp"]), "%s%s %d +" % (px, r.choice(R["fp"]), r.choice([2 * pw, 0, pw]))])
+        lrs = R["lr"] or R["gp"][:2]
+        ra = r.choice([".cfa %d - ^" % pw, ".cfa %d - ^" % r.choice([pw, 2 * pw, 0]), px + r.choice(lrs), px + r.choice(lrs), reg(),
+                       code(), "%s %d +" % (reg(), r.choice([4, pw, 1]))])
+        rules = [".cfa: " + cfa, ".ra: " + ra]
+        for _ in range(r.choice([0, 1, 1, 2, 3])):
+            tgt = r.choice(R["lr"] * 3 + R["fp"] * 2 + R["gp"][:4] + R["gp"][-3:] + R["gp"] + R.get("pc", []) + [R["sp"]])
+            rules.append("%s%s: %s" % (px, tgt, expr(tgt)))
+        return " ".join(rules)
+
+    def cfi_walk_case(self):
+        """a thread whose frames are all described by (random) STACK CFI text that is likely to evaluate:
+        multi-frame CFI walks incl. rules that restore lr / fp / any register, `.cfa: sp 0 +`, `.ra: lr`."""
+        r = self.r
+        arch = r.choice([3, 3, 3, 6, 6, 2, 1, 0, 4, 5])
+        A = ARCH[arch]
+        R = REGS[arch]
+        pw, bits, px = A["pw"], A["bits"], REGS[arch]["pfx"]
+        top = (1 << bits) - 1
+        nm = r.choice([1, 1, 2])
+        mb = 0x40000000 if bits == 32 or r.chance(1, 2) else 0x00007400c0000000
+        code = lambda mi=None: mb + 0x20000 * (r.below(nm) if mi is None else mi) + 0x100 + 4 * r.below(64)
+        base = (0x80000000 if bits == 32 else 0x00007ffd00000000) + pw * r.below(4)
+        n_words = r.choice([8, 16, 24, 40])
+        data = []
+        for w in range(n_words):
+            v = r.choice([code(), code(), code(), base + pw * r.below(n_words + 1), 0, r.below(1 << bits)])
+            data += le_bytes(v & top, pw)
+        small = [R["sp"]] + R["fp"][:1] + R["lr"][:1] + R["gp"][:3] + R["gp"][-2:]
+        names_lr = R["lr"] or R["gp"][:1]
+
+        def rules():
+            kk = lambda: r.choice([0, 0, 0, pw, 2 * pw, 16, 4 * pw])
+            cfa = "%s%s %d +" % (px, R["sp"], kk())
+            ra = r.choice([".cfa %d - ^" % pw, px + r.choice(names_lr), px + r.choice(names_lr), px + r.choice(R["gp"][-4:]),
+                           "%s%s 4 +" % (px, r.choice(R["gp"][-4:])), ".cfa %d + ^" % r.choice([0, pw])])
+            out = [".cfa: " + cfa, ".ra: " + ra]
+            for _ in range(r.choice([0, 1, 2, 2, 3])):
+                t = r.choice(R["lr"] * 3 + R["lr"][-1:] * 2 + R["fp"] + R["gp"][-4:] + R["gp"][:2])
+                e = r.choice([".cfa -%d + ^" % r.choice([pw, 2 * pw, 16]), ".cfa %d + ^" % r.choice([0, pw]), px + t, px + t,
+                              "%s%s 4 +" % (px, t), "%s%s" % (px, r.choice(small)), str(code()), ".cfa %d -" % r.choice([0, pw])])
+                out.append("%s%s: %s" % (px, t, e))
+            return " ".join(out)
+        mods = []
+        for i in range(nm):
+            text = rules()
+            deltas = "|%d=%s" % (0x100 + 4 * r.below(64), rules().replace(" ", "~")) if r.chance(1, 3) else ""
+            mods.append((mb + 0x20000 * i, 0x10000, "Y|0|65536|0|65536|%s%s" % (text.replace(" ", "~"), deltas)))
+        gp = [r.choice([code(), code(), base + pw * r.below(n_words), 0]) for _ in range(A["ngp"])]
+        valid = "*" if r.chance(4, 5) else ",".join([R["sp"], R.get("pc", ["eip" if arch == 0 else "rip"])[0]] + [n for n in R["lr"][:1] + R["fp"][:1] + R["gp"][-3:] if r.chance(1, 2)])
+        return fmt_case(arch, r.choice([0, 0, 1, 2]), code(), base + pw * r.below(3), base + pw * r.below(n_words), code() if R["lr"] else 0,
+                        gp, valid, base, data, mods)
+
     def interesting_code(self, mods, A):
         r = self.r
         if mods and r.chance(5, 6):
             m = r.choice(mods)
-            return (m[0] + r.choice([0, 1, 2, 0x100, 0x101, 0x150, 0x1ff, 0x200, 0x210, max(m[1] - 1, 0), m[1], m[1] + 1])) & ((1 << A["bits"]) - 1)
+            adj = A["adj"]
+            # around the first and the last byte of a module, and so that `address - adj` is exactly the end / the first byte after it
+            return (m[0] + r.choice([0, 1, 2, adj, adj + 1, 0x100, 0x101, 0x150, 0x1ff, 0x200, 0x210, max(m[1] - 1, 0), m[1], m[1] + 1,
+                                     m[1] + adj, m[1] + adj, m[1] + adj - 1, m[1] + adj + 1, m[1] - 1 + adj])) & ((1 << A["bits"]) - 1)
         return r.choice([0, 1, 4095, 4096, 4097, 4104, U32, U64 & ((1 << A["bits"]) - 1), 0x7FFFFFFFFFFF, 0x800000000000,
                          0x000fffffffffffff, 0x0010000000000000]) & ((1 << A["bits"]) - 1)
 
@@ -131,6 +244,7 @@ class Gen:
         pw, bits = A["pw"], A["bits"]
         top = (1 << bits) - 1
         os_ = r.choice([0, 0, 1, 1, 2]) if arch in (1, 2) else r.choice([0, 0, 0, 1, 2])
+        self.arch = arch
         mods = self.modules(A)
         n_words = r.choice([0, 1, 2, 3, 4, 6, 8, 12, 16, 24, 32, 48, 64, 200, 300]) if r.chance(7, 8) else 0
         length = n_words * pw + (r.below(pw) if r.chance(1, 10) else 0)
@@ -198,7 +312,7 @@ class Gen:
         sp = regval(stack_addr)
         fp = regval(stack_addr)
         lr = regval(lambda: self.interesting_code(mods, A)) if arch not in (0, 1) else 0   # x86/amd64 have no link register slot
-        gp = [r.choice([0, 1, 7, top, r.below(1 << bits)]) for _ in range(A["ngp"])]
+        gp = [r.choice([0, 1, 7, top, r.below(1 << bits), self.interesting_code(mods, A), self.interesting_code(mods, A), stack_addr() & top]) for _ in range(A["ngp"])]
         if r.chance(5, 6):
             valid = "*"
         else:
@@ -217,7 +331,15 @@ def build_chain(rng, arch, os_, technique, depth, top_of_space=False):
     mbase = 0x40000000 if bits == 32 else rng.choice([0x00007400c0000000, 0x40000000, 0x0000000100000000])
     msize = 0x10000
     nmods = rng.range(1, 3)
+    # arm64: 48-bit address spaces -- code (and the stack) above 2^47, module list in load order, not address order
+    high = arch in (3, 6) and rng.chance(2, 5)
+    if high:
+        mbase = rng.choice([0x0000F00000000000, 0x0000800000000000, 0x0000FFFF00000000])
     mods = [[mbase + i * 0x20000, msize, "-"] for i in range(nmods)]
+    extra_mods = []
+    if high or rng.chance(1, 4):
+        extra_mods = [[rng.choice([0x10000000, 0x20000] + ([0x00005500000000] if bits == 64 else [])), 0x1000, "-"]]   # listed last, mapped low
+    HIGH_STACK = 0x0000A00000000000
     ret_addr = lambda i: mods[i % nmods][0] + 0x100 + 0x10 * (i % 200)
     # frame sizes in words
     frames = []
@@ -235,7 +357,7 @@ def build_chain(rng, arch, os_, technique, depth, top_of_space=False):
         if arch in (3, 6):
             slots += [("pad", None)]
         total = len(slots) * pw
-        base = ((1 << bits) - total - (pw if bits == 32 else 1 + 7)) if top_of_space else (0x80000000 if bits == 32 else 0x00007ffd00000000)
+        base = ((1 << bits) - total - (pw if bits == 32 else 1 + 7)) if top_of_space else (0x80000000 if bits == 32 else (HIGH_STACK if high and rng.chance(1, 2) else 0x00007ffd00000000))
         base &= ~(pw - 1)
         fp_addr = {}
         for idx, (k, i) in enumerate(slots):
@@ -260,7 +382,7 @@ def build_chain(rng, arch, os_, technique, depth, top_of_space=False):
         for i in range(depth):
             exp.append(dict(resume=ret_addr(i), instr=ret_addr(i) - adj, sp=fp_addr[i] + 2 * pw, trust="frame_pointer",
                             fp=fp_addr.get(i + 1, last_fp)))
-        case = fmt_case(arch, os_, ip0, sp0, fp0, 0, [0] * A["ngp"], "*", base, data, [tuple(m) for m in mods])
+        case = fmt_case(arch, os_, ip0, sp0, fp0, 0, [0] * A["ngp"], "*", base, data, [tuple(m) for m in mods + extra_mods])
         return case, exp, dict(ip=ip0, sp=sp0)
     if technique == "scan":
         # return addresses findable within the scan window; no frame pointers.  Give the modules
@@ -278,7 +400,7 @@ def build_chain(rng, arch, os_, technique, depth, top_of_space=False):
         # terminate: after the last frame, a window full of non-addresses, then end of memory
         slots += [("pad", None)] * 2
         total = len(slots) * pw
-        base = ((1 << bits) - total - (pw if bits == 32 else 8)) if top_of_space else (0x80000000 if bits == 32 else 0x00007ffd00000000)
+        base = ((1 << bits) - total - (pw if bits == 32 else 8)) if top_of_space else (0x80000000 if bits == 32 else (HIGH_STACK if high and rng.chance(1, 2) else 0x00007ffd00000000))
         base &= ~(pw - 1)
         data = []
         exp = []
@@ -291,7 +413,7 @@ def build_chain(rng, arch, os_, technique, depth, top_of_space=False):
         ip0 = mods[0][0] + 0x50
         # no frame pointer available: make fp invalid where the architecture would use it
         names = {0: "eip,esp", 1: "rip,rsp", 2: "pc,sp", 3: "pc,sp", 6: "pc,sp", 4: "pc,sp", 5: "pc,sp"}[arch]
-        case = fmt_case(arch, os_, ip0, base, 0, 0, [0] * A["ngp"], names, base, data, [tuple(m) for m in mods])
+        case = fmt_case(arch, os_, ip0, base, 0, 0, [0] * A["ngp"], names, base, data, [tuple(m) for m in mods + extra_mods])
         return case, exp, dict(ip=ip0, sp=base)
     if technique == "cfi":
         # every module: .cfa = sp + N ; .ra = *(cfa - pw); one N per module
@@ -300,7 +422,7 @@ def build_chain(rng, arch, os_, technique, depth, top_of_space=False):
             m[2] = sym(0, msize, 0, msize, ns[i], 0, pw, None)
         ip0 = mods[0][0] + 0x50
         cur_mod = 0
-        base = 0x80000000 if bits == 32 else 0x00007ffd00000000
+        base = 0x80000000 if bits == 32 else (HIGH_STACK if high and rng.chance(1, 2) else 0x00007ffd00000000)
         if top_of_space:
             base = ((1 << bits) - sum(ns) * (depth + 2) - 64) & ~(pw - 1)
         sp = base
@@ -317,7 +439,7 @@ def build_chain(rng, arch, os_, technique, depth, top_of_space=False):
         # the last frame: its CFI reads a zero return address -> end of stack
         n = ns[cur_mod]
         data += [0] * n
-        case = fmt_case(arch, os_, ip0, base, 0, 0, [0] * A["ngp"], "*", base, data, [tuple(m) for m in mods])
+        case = fmt_case(arch, os_, ip0, base, 0, 0, [0] * A["ngp"], "*", base, data, [tuple(m) for m in mods + extra_mods])
         return case, exp, dict(ip=ip0, sp=base)
     raise ValueError(technique)
 
@@ -438,13 +560,17 @@ class C05(PropBase):
         g = Gen(rng)
         cases = []
         dist = {"adversarial": 0, "wellformed": 0, "by_arch": {}}
-        n_adv = 30000 if tier == "quick" else 300000
+        n_adv = 26000 if tier == "quick" else 300000
         for _ in range(n_adv):
             c = g.case()
             cases.append(c)
             dist["adversarial"] += 1
             a = c.split(" ", 1)[0]
             dist["by_arch"][a] = dist["by_arch"].get(a, 0) + 1
+        n_cfi = 6000 if tier == "quick" else 60000
+        for _ in range(n_cfi):
+            cases.append(g.cfi_walk_case())
+        dist["cfi_rule_text_walks"] = n_cfi
         n_wf = 2000 if tier == "quick" else 20000
         for _ in range(n_wf):
             arch = rng.choice([0, 1, 2, 3, 4, 5, 6])
